@@ -101,7 +101,8 @@ def scenarios3(rng, quick):
 # ------------------------------------------------------------------ TLC helpers
 LABELS = ["op", "xlock", "last_load", "last_cas", "win_load", "win_lock", "rb_done", "rb_copy", "rb_store",
           "add_slot", "adv_done", "adv_last", "adv_win", "adv_slot", "adv_cas", "notify_lock",
-          "wait_fast", "wait_lock", "wait_park"]     # WaterMarkImpl.tla Labels
+          "wait_fast", "wait_lock", "wait_park",
+          "r_next", "r_last", "r_begun", "c_lock", "c_ts", "c_begun", "c_done"]     # WaterMarkImpl.tla Labels
 
 
 def parse_json_lines(out, tag):
@@ -308,19 +309,19 @@ def run(ctx):
     fut_red = {c: pool.submit(ctx.tlc_or_undecided, "WaterMarkImpl", c, workers=1, timeout=600, heap="1g") for c in red}
     # ---------------------------------------------------------------- M2 generation
     s2, s3 = scenarios2(ctx.rng, quick), scenarios3(ctx.rng, quick)
-    # deepest pre-emption bound for one scenario per class: envelope, free Begins (thorough: + serialised with rebuild)
-    core2 = [s2[0], s2[5]] if quick else [s2[0], s2[4], s2[5]]
+    # deepest pre-emption bound for two scenarios: the envelope (serialised Begins) and free Begins
+    core2 = [s2[0], s2[5]]
     rest2 = [s for s in s2 if s not in core2]
     nsim = 500 if quick else 5000
     plan = [  # name, threads, scenarios, pre-emption bound, simulate
         ("p2", 2, core2, 2 if quick else 3, None),
         ("p2rest", 2, rest2, 1 if quick else 2, None),
-        ("p3", 3, s3, 1 if quick else 2, None),
+        ("p3", 3, s3, 1, None),
         ("sim2", 2, s2, 1000, nsim), ("sim3", 3, s3, 1000, nsim),
-    ] + ([] if quick else [("sim2p", 2, s2, 3, nsim), ("sim3p", 3, s3, 3, nsim)])
+    ] + ([] if quick else [("p3k2", 3, s3[:1], 2, None), ("sim2p", 2, s2, 3, nsim), ("sim3p", 3, s3, 3, nsim)])
     gens = [(name, pool.submit(gen_schedules, ctx, name, n, sc, k, simulate="num=%d" % sim if sim else None,
                                seed=ctx.seed * 100 + i if sim else None)) for i, (name, n, sc, k, sim) in enumerate(plan)]
-    k2, k3 = plan[0][3], plan[2][3]
+    k2, k3 = plan[0][3], 1 if quick else 2
 
     scheds, origin = [], {}
 
@@ -460,6 +461,9 @@ def run(ctx):
     # expected-red counterexamples and open replays must reproduce on the real code (else the spec misdescribes the code)
     for s in scheds:
         if s["expect"] and s["expect"] != "fixed" and s["id"] not in by_sched:
+            if ctx.violations:      # the code changed under us: the violations above are the verdict
+                ctx.notes.append("%s no longer shows %s" % (s["src"], s["expect"]))
+                continue
             raise Undecided("%s (schedule %d) was expected to show %s on the real code but its trace satisfies the property: "
                             "spec/code divergence, or the defect is gone (then update findings/known.d/watermark.json and the as-is configuration)"
                             % (s["src"], s["id"], s["expect"]))
@@ -483,7 +487,7 @@ def run(ctx):
         "states": sum(r.distinct for r in m1.values()), "transitions": sum(r.generated for r in m1.values()),
         "traces_validated_against_impl": len(order), "evaluations": len(scheds), "distinct_nontrivial": len(distinct),
         "rule": "schedules (sequences of thread ids) enumerated by TLC from WaterMarkImpl.tla: every interleaving with <= k pre-emptions "
-                "(2 threads: k=%d for three core scenarios, k-1 for the others; 3 threads: k=%d) plus %d random walks per thread count (thorough: also %d walks with <= 3 pre-emptions), plus model counterexamples and recorded replays; "
+                "(2 threads: k=%d for one scenario per usage class, k-1 for the others; 3 threads: k=1, thorough k=%d for the smallest scenario) plus %d random walks per thread count (thorough: also %d walks with <= 3 pre-emptions), plus model counterexamples and recorded replays; "
                 "each executed step by step on a real utils.WaterMark; non-trivial = some step runs while another thread is parked inside a WaterMark call; "
                 "distinct by (window, programs, schedule)" % (k2, k3, nsim, nsim),
         "samples": [{"schedule": {k: sample[k] for k in ("w", "progs", "sched")}, "abstract_events": proj[sample["id"]][0][:14],
